@@ -21,6 +21,7 @@ Monitors (written against the property text, evaluated on the real observations 
   M2 a call resolves to the newest implementation whose version is <= getCodeVersion(), also after load/restart
   M3 a node whose enabled version is above its code applies nothing
   M4 old and new code run the same method for every entry (pair scripts)
+  M6 along the applied log the enabled version of a node never decreases (D71)
   M5 inside conf.onCodeVersionChanged(old, new): getCodeVersion() == new and every replicated call issued from the hook
      (one real call per method of the object and of every consumer) resolves to the newest implementation <= new
 """
@@ -51,6 +52,7 @@ SIG_LOST = "syncobj.loadDumpFile:enabled-version-not-restored"
 SIG_LOST_USER = "syncobj.loadDumpFile:enabled-version-not-restored-with-user-serializer"
 RESTORE_SIGS = (SIG_TABLE, SIG_LOST, SIG_LOST_USER)     # what the C09 plan reports (restored enabled version / name table)
 SIG_REFUSED = "syncobj.doApplyCommand:supported-version-refused"
+SIG_DOWN = "syncobj.doApplyCommand:enabled-version-decreased"
 # what the C01 plan reports: a node caught up by snapshot / dump does not know the enabled version, or applies entries
 # although the cluster is on a version its code lacks (its state is then not the execution of the prefix it reports)
 C01_SIGS = (SIG_LOST, SIG_LOST_USER, SIG_BLOCKED, SIG_AFTER)
@@ -207,6 +209,15 @@ class Runner(object):
         if self.loaded_enabled is not None:
             enabled0 = max(enabled0, self.loaded_enabled)    # the version of the snapshot position, whatever the node believes
         ran = [e for e in ev if e[0] == "ran"]
+        # M6: along the applied log the enabled version of a node never decreases (a request for a lower version is rejected,
+        # also when it only shows when the entry is applied)
+        now = self.b.obj.getCodeVersion()
+        down = [e for e in ev if e[0] == "verChanged" and e[2] < e[1]]
+        self.cov["m6_checked"] += 1
+        if now < before["enabled"] or down:
+            self._violation(SIG_DOWN, "enabled version went down while entries %d..%d were applied: getCodeVersion() %d -> %d, "
+                            "onCodeVersionChanged calls %r" % (la0 + 1, commit, before["enabled"], now,
+                                                              [e[1:3] for e in ev if e[0] == "verChanged"]), None)
         for e in ev:
             if e[0] == "wrongVer" and e[2] <= sv:
                 self._violation(SIG_REFUSED, "VERSION %d refused (WrongVer, self version reported %d) although the code has "
@@ -272,6 +283,8 @@ class Runner(object):
                     self.cov["cb_ok" if e[3] else "cb_discarded"] += 1
                     if isinstance(e[2], list) and e[2] and e[2][0] == "keyError":
                         self.cov["cb_keyError"] += 1
+                    if isinstance(e[2], list) and e[2] and e[2][0] == "lowerVersion":
+                        self.cov["cb_lowerVersion"] += 1
             if any(e[0] == "verChanged" for e in ev):
                 self._monitor_table("apply")
         elif k == "commit":
@@ -687,6 +700,15 @@ def _directed(argc):
             st = {"enabled": 0, "tableVer": 0, "lastApplied": 1, "commit": 5, "log": log,
                   "waiting": [[3, [[sub_term, 77]]], [4, [[1, 78], [2, 79]]]]}
             out.append(({"N": new, "O": old}, [["node", name, st], ["apply"], ["apply"], ["setver", v], ["setver", 0]], "mem"))
+    # D71: VERSION 2 then VERSION 1 (then VERSION 2 again) in the log, subscribers on them; one batch / entry by entry
+    three = {"objs": [[("f", 0, r), ("f", 1, r), ("f", 2, r)], [("g", 0, r), ("g", 2, r)]]}
+    log = [[["noop"], 1, 0], [["reg", 0, 9501], 2, 1], [["ver", 2], 3, 1], [["ver", 1], 4, 1], [["reg", 0, 9502], 5, 1],
+           [["ver", 2], 6, 1], [["ver", 0], 7, 1], [["reg", 1, 9503], 8, 1]]
+    st = {"enabled": 0, "tableVer": 0, "lastApplied": 1, "commit": 8, "log": log,
+          "waiting": [[3, [[1, 71]]], [4, [[1, 72], [2, 73]]], [7, [[1, 74]]]]}
+    out.append(({"N": three}, [["node", "N", st], ["apply"], ["setver", 1], ["setver", 2]], "mem"))
+    st1 = dict(st, commit=2)
+    out.append(({"N": three}, [["node", "N", st1], ["apply"]] + sum([[["commit", c], ["apply"]] for c in range(3, 9)], []), "mem"))
     # unknown method id in the middle of a batch, subscribers of the same and of another term on it (D9 path)
     log = [[["noop"], 1, 0], [["reg", 0, 9201], 2, 1], [["reg", 99, 9202], 3, 1], [["reg", 1, 9203], 4, 1], [["ver", 1], 5, 1],
            [["reg", 7, 9204], 6, 1]]
@@ -837,7 +859,7 @@ def run(ctx):
     floors = ["ev_ran", "ev_wrongVer", "ev_verChanged", "ev_blocked", "cb_ok", "cb_discarded", "setver_tooHigh",
               "setver_tooLow", "setver_queued", "dump_made", "dump_none", "op_load", "op_compact", "mode_file", "mode_user",
               "m1_checked", "m3_checked", "m4_checked", "follower_from_dump", "follower_from_log", "load_after_switch",
-              "load_enabled_gt_self", "load_clear_kept", "load_clear_installed", "load_ev_cbOpen", "hook_calls", "m5_checked"] + (["ev_unknownId", "cb_keyError"] if INCLUDE_UNKNOWN_IDS else [])
+              "load_enabled_gt_self", "load_clear_kept", "load_clear_installed", "load_ev_cbOpen", "hook_calls", "m5_checked", "m6_checked", "cb_lowerVersion"] + (["ev_unknownId", "cb_keyError"] if INCLUDE_UNKNOWN_IDS else [])
     floors += ["load_self_gt_enabled", "load_installed"]
     if ctx.pid == "C01":
         floors = ["op_load", "dump_made", "load_installed", "follower_from_dump", "load_after_switch", "load_enabled_gt_self",
